@@ -55,8 +55,14 @@ func goElemType(t *ref.Type) reflect.Type {
 	case ref.KDouble:
 		return tDouble
 	case ref.KString:
+		if t.Named {
+			return reflect.TypeOf(NamedStr(""))
+		}
 		return tString
 	case ref.KBinary:
+		if t.Named {
+			return reflect.TypeOf(NamedBytes(nil))
+		}
 		return tBytes
 	case ref.KEnum:
 		return tEnum
